@@ -4,7 +4,7 @@ cd "$(dirname "$0")/.."
 TIER=${1:-quick}
 for id in $(python3 -c "import json;print(' '.join(c['property_id'] for c in json.load(open('MANIFEST.json'))['checks']))"); do
   s=$(date +%s)
-  ./check $id --tier $TIER > /tmp/runall_$id.log 2>&1
+  ./check $id --tier $TIER > /tmp/runall_${TIER}_$id.log 2>&1
   rc=$?
   e=$(( $(date +%s) - s ))
   v=$(python3-vt -c "
@@ -12,5 +12,5 @@ import json,jsonschema,sys
 try:
     jsonschema.validate(json.load(open('evidence/$id.json')),json.load(open('/root/.vp/EVIDENCE.schema.json'))); print('evidence-ok')
 except Exception as ex: print('EVIDENCE-INVALID',str(ex)[:100])")
-  echo "$id exit=$rc wall=${e}s $v $(grep -c '^KNOWN-FINDING' /tmp/runall_$id.log) known; $(tail -1 /tmp/runall_$id.log | cut -c1-150)"
+  echo "$id exit=$rc wall=${e}s $v $(grep -c '^KNOWN-FINDING' /tmp/runall_${TIER}_$id.log) known; $(tail -1 /tmp/runall_${TIER}_$id.log | cut -c1-150)"
 done
